@@ -1,11 +1,15 @@
 import Iavl.Model.Merge
 import Iavl.Lemmas.Refine
 import Iavl.Generated.FactsOk
+import Iavl.Lemmas.FastIndexCorrect
 /-
   C07 — fast index coherence. What is proved: the merge of persisted index and uncommitted overlay
   (`UnsavedFastIterator`) yields exactly the overlaid state; the answers the index must give are those
-  of the tree walk, which are those of the versioned map (C01). The byte-level index machine
-  (label, rebuild decision) is tied by correspondence only (see DESIGN.md §5 C07).
+  of the tree walk, which are those of the versioned map (C01); and, over whole histories of writes,
+  commits and discards, the index with its overlay (`unsavedFastNodeAdditions` / `Removals`, Model/FastIndex.lean)
+  answers lookups like the working map, iterates the working contents, and holds exactly the last committed
+  contents (`index_overlay_coherent`). The byte-level index machine (label, rebuild decision) is tied by
+  correspondence only (see DESIGN.md §5 C07).
 -/
 namespace Iavl.Props.C07
 open Iavl Std
@@ -21,6 +25,24 @@ theorem overlay_members (rem : K → Bool) (disk adds : List (K × V))
 theorem overlay_sorted (rem : K → Bool) (disk adds : List (K × V))
     (hd : SortedBy cmp disk) (ha : SortedBy cmp adds) : SortedBy cmp (mergeNext cmp rem disk adds) :=
   sorted_mergeNext cmp rem disk adds hd ha
+
+section overlay
+variable {K V : Type} [Ord K] [TransOrd K] [LawfulEqOrd K] [DecidableEq K]
+
+/-- after any history of sets, removals (recorded only when the key existed), commits and discards
+    (Rollback / LoadVersion): `Get` through additions, removals and persisted entries equals the lookup in
+    the working map; the merge iterator yields the working contents; the persisted entries are the last
+    committed contents -/
+theorem index_overlay_coherent (ops : List (FOp K V)) :
+    let s := ops.foldl FMach.step (FMach.init : FMach K V)
+    (∀ k, s.fs.get k = lookup k s.working) ∧
+    mergeNext compare (fun k => decide (k ∈ s.fs.rems)) s.fs.index s.fs.adds = s.working ∧
+    s.fs.index = s.committed := index_coherent ops
+
+/-- non-vacuity: a concrete history whose index state is not trivial -/
+example : let s := ([.set 1 10, .set 2 20, .save, .remove 1, .set 3 30] : List (FOp Nat Nat)).foldl FMach.step FMach.init
+    s.fs.index = [(1, 10), (2, 20)] ∧ s.fs.adds = [(3, 30)] ∧ s.fs.rems = [1] ∧ s.working = [(2, 20), (3, 30)] := by decide
+end overlay
 
 theorem label_constants :
     Facts.storageVersionKey = "storage_version" ∧ Facts.fastStorageVersionDelimiter = "-" ∧
